@@ -12,11 +12,16 @@ import (
 //
 // R1: after Close() is called, Start() returns within the bound and the process does not die.
 // R2: with automatic checkpointing and no fault injected after the call, every position an Ack had
-//     settled before the call is stored when Start() returns.
+//
+//	settled before the call is stored when Start() returns.
+//
 // R3: after Start() returned nothing runs any more: no ConsumeEvent, no request of any kind from the
-//     member (stream requests, observe, ping, heartbeat, checkpoint writes).
+//
+//	member (stream requests, observe, ping, heartbeat, checkpoint writes).
+//
 // R4: every stream that was open received CLOSE_STREAM (or its connection was closed), and all the
-//     member's connections are closed.
+//
+//	member's connections are closed.
 func init() { checkers["C13"] = checkC13 }
 
 type c13member struct {
@@ -55,6 +60,8 @@ func checkC13(run *Run, res *Result) {
 	inConsume := map[int]int{}
 	anyFault := false
 	lastConsEnd := map[int]int64{}
+	stopN := map[int]int{}         // member -> event number of its last BeforeStreamStop
+	fileAfterStop := map[int]int{} // member -> the checkpoint file was rewritten after the stream had been stopped
 	streamClosedWindow := map[int]bool{}
 	bound := cfg.CkptTimeout + 75_000_000_000
 	if cfg.Version[0] < 5 || cfg.Version[0] == 5 && cfg.Version[1] < 5 {
@@ -80,6 +87,8 @@ func checkC13(run *Run, res *Result) {
 			}
 		case journal.KHandler:
 			switch e.S {
+			case "BeforeStreamStop":
+				stopN[e.M] = e.N
 			case "AfterStreamStop":
 				streamClosedWindow[e.M] = true
 			case "BeforeStreamStart":
@@ -150,6 +159,9 @@ func checkC13(run *Run, res *Result) {
 				for vb, o := range parseFileStore(e.Raw) {
 					stored[vb], have[vb] = o.Seq, true
 				}
+				if sn := stopN[e.M]; sn > 0 && e.N > sn {
+					fileAfterStop[e.M] = e.N
+				}
 				if mm := get(e.M); mm.closed && e.M > 0 {
 					res.violate("C13", "R3-activity-after-shutdown", e.N, "file-write", "member %d wrote the checkpoint file after Start() had returned (event #%d)", e.M, mm.retN)
 				}
@@ -212,7 +224,11 @@ func checkC13(run *Run, res *Result) {
 				sort.Ints(vbs)
 				for _, vb := range vbs {
 					if !have[vb] || stored[vb] < mm.ackPos[vb] {
-						res.violate("C13", "R2-settled-position-not-stored", e.N, "plain",
+						sig := "plain"
+						if fileAfterStop[e.M] > 0 {
+							sig = "file-rewritten-after-stream-stop"
+						}
+						res.violate("C13", "R2-settled-position-not-stored", e.N, sig,
 							"member %d vb %d: position %d had been acknowledged before Close() (event #%d); when Start() returned the store held %d (present=%v), with automatic checkpointing and no fault after the call",
 							e.M, vb, mm.ackPos[vb], mm.closeN, stored[vb], have[vb])
 					}
